@@ -585,6 +585,8 @@ func vRandomMap(rng *rand.Rand) (regs []vRegion, ks, ke uint64, ok bool) {
 	ke = ks + klen*4096
 	if rng.Intn(2) == 0 {
 		ke -= uint64(rng.Intn(4095))
+	} else if tail := kr.addr + kr.length - last; koff+klen == nfr && tail > 0 && rng.Intn(2) == 0 {
+		ke += 1 + uint64(rng.Intn(int(tail))) // the image ends inside the trailing partial page of its region
 	}
 	return regs, ks, ke, true
 }
